@@ -12,12 +12,12 @@ from mc.run import Stats, explore
 
 ASSUME = [
     "UTC projects, default calendar; calendar day / ISO week (date.isocalendar) on the project clock",
-    "limit values dailymax {1h,2h,2.5h,4h}, weeklymax {5h,10h,16h}; resolutions {60,30,15} min",
+    "limit values dailymax {1h,1.5h,1.6h,2h,2.5h,3.5h,4h}, weeklymax {5h,7.5h,10h,10.6h,16h} (fractions of a slot in both rounding directions); resolutions {60,30,15} min",
     "the whole scheduled horizon is aggregated, including the part beyond the declared project end that the scheduler adds",
     "limits count booked working time of every member of a limited group / every task below a limited task (person-time)",
 ]
-DAILY = ["1h", "2h", "2.5h", "4h"]
-WEEKLY = ["5h", "10h", "16h"]
+DAILY = ["1h", "1.5h", "1.6h", "2h", "2.5h", "3.5h", "4h"]
+WEEKLY = ["5h", "7.5h", "10h", "10.6h", "16h"]
 PLACES = ["res", "group", "task", "container", "restrict", "team"]
 HORIZONS = {
     # name: (start, dur, effort hours for a weekly 5h / daily 2h limit)
@@ -132,7 +132,7 @@ def run(ctx):
     explore(ctx, universe(ctx.tier), "mc.props.c05:evaluate", st, payload=payload, sample_of=sample, trait=trait, timeout=300)
     common.vacuity_guard(ctx, st)
     cov = st.coverage(
-        "product universe: 6 horizons (fits, overruns the declared end, 14 months, year ends 2024/2026/2020) x 7 limit values x 6 placements "
+        "product universe: 6 horizons (fits, overruns the declared end, 14 months, year ends 2024/2026/2020) x 12 limit values x 6 placements "
         "x resolutions x ASAP/ALAP x competing task; states = distinct schedule observations; transitions = placements + bookings; "
         "non-trivial = the limit was reached in at least one day/week (it was binding)")
     return ctx.finish(cov, ASSUME)
